@@ -8,6 +8,7 @@ import (
 	"github.com/SebastienMelki/sebuf/http"
 	"github.com/SebastienMelki/sebuf/internal/annotations"
 	"github.com/SebastienMelki/sebuf/internal/clientgen"
+	"github.com/SebastienMelki/sebuf/internal/openapiv3"
 	"github.com/SebastienMelki/sebuf/internal/tscommon"
 	verif "github.com/SebastienMelki/sebuf/internal/zzverif"
 )
@@ -89,6 +90,10 @@ func VerifC16Traversals() {
 	verif.Budget("C16/go-client/generate-terminates", 3000000, 20000, func() {
 		_ = clientgen.VerifGenerate([]*protogen.File{file})
 	})
+	verif.Budget("C16/openapiv3/collect-terminates", 3000000, 20000, func() {
+		g := openapiv3.NewGenerator(openapiv3.FormatYAML)
+		g.CollectReferencedMessages(file.Services[0])
+	})
 	verif.Reach("C16/traversals/decided")
 }
 
@@ -136,6 +141,10 @@ func VerifC16DeepDiamond() {
 	})
 	verif.Budget("C16/diamond/go-http-linear", 4000000*n/16, 30000, func() {
 		_ = New(&protogen.Plugin{Files: []*protogen.File{file}}).Generate()
+	})
+	verif.Budget("C16/diamond/openapiv3-linear", 6000000*n/16, 30000, func() {
+		g := openapiv3.NewGenerator(openapiv3.FormatYAML)
+		g.CollectReferencedMessages(file.Services[0])
 	})
 	verif.Reach("C16/diamond/decided")
 }
